@@ -29,7 +29,6 @@ import numpy as np
 import common
 import toys
 from common import zlist
-from props import siftcore
 
 IMPORTS = 'From EmdV Require Import lib.NpLite model.Extrema model.SiftCore model.Toys model.Variants model.Ensemble.'
 DEFAULT_TAIL = [0, 1000, 1, 1, 0, 1, 10, 1, 20, 1, 2, 1, 20]      # emd's default imf_opts (as harness/props/c03.py)
@@ -257,7 +256,10 @@ def analyse(kind, x, kw, st, out, recs, rounding=False):
                           '(max deviation %.3g, scale %.3g)' % (nens, ' (each the mean of its +noise and -noise decompositions)' if mode == 'flip' else '',
                                                               float(np.abs(out - want).max()), scale), None, None))
         if amp == 0 and not fails:
-            c = _REAL['sift'](np.round(X) if rounding else X, *members[0]['+']['args'], **members[0]['+']['kwargs'])
+            kws = dict(members[0]['+']['kwargs'])
+            if 'max_imfs' in kws:
+                kws['max_imfs'] = cap                        # the CALLER's cap
+            c = _REAL['sift'](np.round(X) if rounding else X, *members[0]['+']['args'], **kws)
             if c.shape[1] >= K and float(np.abs(out - c[:, :K]).max()) > tol:
                 fails.append(('zero-noise', 'ensemble_sift with zero noise amplitude differs from the classic sift with the same cap '
                               '(max deviation %.3g)' % float(np.abs(out - c[:, :K]).max()), None, None))
@@ -288,7 +290,8 @@ def analyse(kind, x, kw, st, out, recs, rounding=False):
     if amp == 0 and not fails and lay:
         r0 = lay[0][1][0]['+']
         kws = dict(r0['kwargs'])
-        kws['max_imfs'] = cap
+        if 'max_imfs' in kws:
+            kws['max_imfs'] = cap
         c = _REAL['sift'](np.round(X) if rounding else X, *r0['args'], **kws)
         m = min(c.shape[1], imf.shape[1])
         if float(np.abs(imf[:, :m] - c[:, :m]).max()) > tol:
@@ -435,7 +438,7 @@ def toy_case(inp, tracedir):
     -> dict(status, impl render, schedule, fails, discard, brk)"""
     cfg, x = inp['cfg'], inp['signal']
     X = np.array(x, dtype=float)
-    N, nens, flip, k = len(x), inp['nensembles'], inp['noise_mode'] == 'flip', inp['k']
+    nens, flip, k = inp['nensembles'], inp['noise_mode'] == 'flip', inp['k']
     std = float(X.std())
     amp = 0.0 if k == 0 else k / std
     kw = dict(nensembles=nens, ensemble_noise=amp, noise_mode=inp['noise_mode'], nprocesses=inp['nprocesses'],
